@@ -13,6 +13,7 @@ import (
 	"sort"
 	"strconv"
 	"strings"
+	"syscall"
 	"time"
 )
 
@@ -157,6 +158,7 @@ func Quiet() (bool, []G) {
 // quiet first, nothing can signal it any more: Stuck.
 func Await(ch <-chan struct{}, watchdog time.Duration) (Outcome, []G) {
 	deadline := time.Now().Add(watchdog)
+	span := StartSpan()
 	wait := 500 * time.Microsecond
 	for {
 		t := time.NewTimer(wait)
@@ -166,7 +168,8 @@ func Await(ch <-chan struct{}, watchdog time.Duration) (Outcome, []G) {
 			return CondMet, nil
 		case <-t.C:
 		}
-		if q, gs := Quiet(); q {
+		q, gs := Quiet()
+		if q {
 			select {
 			case <-ch:
 				return CondMet, nil
@@ -174,8 +177,9 @@ func Await(ch <-chan struct{}, watchdog time.Duration) (Outcome, []G) {
 			}
 			return Stuck, gs
 		}
+		span.Observe(gs)
 		if time.Now().After(deadline) {
-			return Timeout, Snapshot()
+			return span.Classify(), Snapshot()
 		}
 		if wait < 20*time.Millisecond {
 			wait *= 2
@@ -187,16 +191,60 @@ func Await(ch <-chan struct{}, watchdog time.Duration) (Outcome, []G) {
 type Outcome int
 
 const (
-	CondMet Outcome = iota // cond() became true
-	Stuck                  // the process went quiet while cond() was false
-	Timeout                // watchdog: goroutines still runnable; inconclusive
+	CondMet  Outcome = iota // cond() became true
+	Stuck                   // the process went quiet while cond() was false
+	Timeout                 // watchdog: goroutines still runnable; inconclusive
+	Spinning                // watchdog, and the process burnt CPU all along with library goroutines runnable: livelock
 )
+
+// cpuTime is the CPU time consumed by this process so far.
+func cpuTime() time.Duration {
+	var ru syscall.Rusage
+	if syscall.Getrusage(syscall.RUSAGE_SELF, &ru) != nil {
+		return 0
+	}
+	return time.Duration(ru.Utime.Nano() + ru.Stime.Nano())
+}
+
+// Span measures a waiting period so that a watchdog expiry can be classified.
+type Span struct {
+	t0   time.Time
+	cpu0 time.Duration
+	busy int // snapshots in which a library goroutine was running/runnable
+	seen int
+}
+
+func StartSpan() *Span { return &Span{t0: time.Now(), cpu0: cpuTime()} }
+
+// Observe records one dump taken during the wait.
+func (s *Span) Observe(gs []G) {
+	s.seen++
+	for _, g := range gs {
+		if g.InP9() && (g.State == "running" || g.State == "runnable") {
+			s.busy++
+			return
+		}
+	}
+}
+
+// Classify decides what a watchdog expiry means. A starved process shows
+// little CPU use; a livelock shows library goroutines runnable in (nearly)
+// every dump while the process burns CPU and the awaited event never comes.
+func (s *Span) Classify() Outcome {
+	wall := time.Since(s.t0)
+	cpu := cpuTime() - s.cpu0
+	if s.seen >= 5 && s.busy*10 >= s.seen*8 && cpu*2 >= wall {
+		return Spinning
+	}
+	return Timeout
+}
 
 // WaitUntil polls cond; if the process becomes quiet while cond is still
 // false, the state can no longer change by itself: Stuck. The watchdog only
 // produces Timeout (inconclusive), never a verdict.
 func WaitUntil(cond func() bool, watchdog time.Duration) (Outcome, []G) {
 	deadline := time.Now().Add(watchdog)
+	span := StartSpan()
 	spins := 0
 	for {
 		if cond() {
@@ -208,15 +256,17 @@ func WaitUntil(cond func() bool, watchdog time.Duration) (Outcome, []G) {
 			continue
 		}
 		if spins%8 == 0 {
-			if q, gs := Quiet(); q {
+			q, gs := Quiet()
+			if q {
 				if cond() {
 					return CondMet, nil
 				}
 				return Stuck, gs
 			}
+			span.Observe(gs)
 		}
 		if time.Now().After(deadline) {
-			return Timeout, Snapshot()
+			return span.Classify(), Snapshot()
 		}
 		time.Sleep(200 * time.Microsecond)
 	}
